@@ -13,7 +13,7 @@ set_option linter.unusedSimpArgs false
 
 namespace Anko.C04
 open Anko
-variable [FOps]
+variable [FOps] [Prov]
 
 /-- After ANY statement finishes — normally, by break/continue/return, by an error (caught
 later or not), by interruption, even by running out of model fuel — execution continues in
